@@ -122,7 +122,7 @@ PROPS.update({
                   ["chandata-invalid-number-emitted"]),
     "C19": h2prop(["TurnModel.Props.C19"], ["m:*"], ["resp"], ["response-wrong-source"]),
     "C15": h2prop(["TurnModel.Props.C15"], ["*"], ["ev", "net"],
-                  ["allocation-count-mismatch", "sockets-left-after-close", "server-close-leaves-control-connections"],
+                  ["allocation-count-mismatch", "sockets-left-after-close", "server-close-leaves-control-connections", "even-port-probe-left-open"],
                   ["PARTIAL: goroutines and timers are ghost state in the model (one timer per entity, one reader goroutine per allocation); "
                    "their real existence is observed only through the simnet open/close log and the synctest bubble draining at the end of every history"]),
     "C16": dict(h2prop(["TurnModel.Props.C16"],
@@ -194,7 +194,7 @@ PROPS["C12"] = {
 }
 
 PROPS["C13"] = {
-    "modules": ["TurnModel.Props.C13", "TurnModel.Props.C13Nums"], "gen": True,
+    "modules": ["TurnModel.Props.C13", "TurnModel.Props.C13Nums", "TurnModel.Props.C13Locks"], "gen": True,
     "harnesses": ["H5"], "view": ["cwrite", "cin", "cread", "cadv", "cclose", "cnet"], "outs": None,
     "alarms": ["inbound-blocks", "h5-setup", "harness-died"],
     "rule": "H5 drives the real turn.Client + UDPConn (Allocate, WriteTo, ReadFrom, SetReadDeadline, Close, HandleInbound, the 30 s bindings timer) against a scripted TURN server on an "
